@@ -161,6 +161,69 @@ theorem drained (cap : Nat) (hc : cap ≥ 1) (s : St) (e : Int) (h : Due s e) :
   have := (ticks_bound cap hc s.q s e h).1
   omega
 
+/-- one step of a miner's history: messages and callbacks at the current epoch, or the tick that
+    ends the epoch -/
+inductive Step where
+  | terminate (n cap : Nat)
+  | detect (n cap : Nat)
+  | tick (cap : Nat)
+  deriving Repr
+
+/-- a history from epoch `e`: the tick dispatches the due events and moves to the next epoch -/
+def runSteps : St → Int → List Step → St × Int
+  | s, e, [] => (s, e)
+  | s, e, .terminate n cap :: rest => runSteps (terminate s e n cap) e rest
+  | s, e, .detect n cap :: rest => runSteps (detect s e n cap) e rest
+  | s, e, .tick cap :: rest => runSteps (tick s e cap) (e + 1) rest
+
+/-- **In every reachable state pending work has an event due**: over any history of terminations,
+    detecting deadline callbacks and ticks (each processing call addressing at least one sector), at
+    every point a miner with sectors awaiting early-termination processing has a
+    ProcessEarlyTerminations event that the tick of the current epoch or the next one dispatches. -/
+theorem due_always (steps : List Step) : ∀ (s : St) (e : Int), Due s (e + 1) →
+    (∀ st ∈ steps, match st with | .tick cap => cap ≥ 1 | _ => True) →
+    Due (runSteps s e steps).1 ((runSteps s e steps).2 + 1) := by
+  induction steps with
+  | nil => intro s e h _; exact h
+  | cons st rest ih =>
+    intro s e h hc
+    have hrest : ∀ x ∈ rest, match x with | .tick cap => cap ≥ 1 | _ => True :=
+      fun x hx => hc x (by simp [hx])
+    cases st with
+    | terminate n cap => exact ih _ e (terminate_due s e n cap h) hrest
+    | detect n cap => exact ih _ e (detect_due s e n cap h) hrest
+    | tick cap =>
+      have hcap : cap ≥ 1 := hc (.tick cap) (by simp)
+      -- an event due at e+1 may not be due at e: the tick then leaves it in place
+      by_cases hq : s.q > 0
+      · obtain ⟨ev, hm, hle⟩ := h hq
+        by_cases hdue : ev ≤ e
+        · exact ih _ (e + 1) (due_mono (tick_step s e cap hcap (fun _ => ⟨ev, hm, hdue⟩)).1 (by omega)) hrest
+        · -- no event due now (all of them at e+1 or later would be fine, but some could be due):
+          -- in either case the pending event at e+1 survives or a processing call re-schedules
+          have key : Due (tick s e cap) (e + 1 + 1) := by
+            by_cases hany : ∃ ev' ∈ s.events, ev' ≤ e
+            · obtain ⟨ev', hm', hle'⟩ := hany
+              exact due_mono (tick_step s e cap hcap (fun _ => ⟨ev', hm', hle'⟩)).1 (by omega)
+            · -- nothing is dispatched: the state is unchanged
+              have hnil : s.events.filter (fun ev => decide (ev ≤ e)) = [] := by
+                apply List.filter_eq_nil_iff.mpr
+                intro x hx hdx
+                exact hany ⟨x, hx, by simpa using hdx⟩
+              have : tick s e cap = s := by rw [tick_eq, hnil]; rfl
+              rw [this]
+              intro _
+              exact ⟨ev, hm, by omega⟩
+          exact ih _ (e + 1) key hrest
+      · have h0 : Due (tick s e cap) (e + 1 + 1) := by
+          have hle := (tick_eq s e cap ▸ runEvents_le e cap (s.events.filter (fun ev => decide (ev ≤ e))) s)
+          intro hq'
+          omega
+        exact ih _ (e + 1) h0 hrest
+
+/-- from the empty state the premise of `due_always` holds -/
+theorem due_init (e : Int) : Due {} e := by intro h; simp at h
+
 /-- non-vacuity: three timed-out sectors detected at epoch 10, two processed per call -/
 example :
     let s := detect {} 10 5 2
